@@ -51,6 +51,8 @@ def universe(tier, seed):
         if tier == "quick":
             muts = rng.sample(muts, min(len(muts), 60))
         out += muts
+        # valid programs with unusual literals (escapes that are not valid UTF-8, raw / template / text-block strings, numeric forms)
+        out += [(lang, "stress__" + tag, text) for tag, text in corpus.literal_stress(lang)]
     return out
 
 
